@@ -440,6 +440,10 @@ func (g *gm) stmt(s ast.Stmt) []string {
 			}
 		}
 		return []string{"(.expr " + g.expr(x.X) + ")"}
+	case *ast.SendStmt:
+		// `ch <- v`: an EFFECT (the value is recorded); whether the send can block is not modelled - the units that use it
+		// send into a channel they have just made with a buffer
+		return []string{"(.expr (.call \"chan.send\" [" + g.expr(x.Chan) + ", " + g.expr(x.Value) + "]))"}
 	case *ast.GoStmt:
 		// `go recv.m(args)` / `go f(args)`: starting the goroutine is an EFFECT named "go:m" (what it does is not run here)
 		switch fn := x.Call.Fun.(type) {
@@ -985,6 +989,10 @@ func genGoMiniAll() []*leanFile {
 	out = append(out, &leanFile{name: "GoCompact", raw: genGoMini("GoCompact",
 		[]string{cl + "compact_cleaner.go"},
 		map[string][]string{cl + "compact_cleaner.go": {"compactCleaner.cleanSegment"}},
+		clConsts)})
+	out = append(out, &leanFile{name: "GoHW", raw: genGoMini("GoHW",
+		[]string{cl + "commitlog.go"},
+		map[string][]string{cl + "commitlog.go": {"commitLog.waitForHW"}},
 		clConsts)})
 	en := "server/encryption/"
 	out = append(out, &leanFile{name: "GoSeal", raw: genGoMini("GoSeal",
